@@ -214,6 +214,66 @@ func run(w *world, v *vec, o *out) {
 	}
 }
 
+// shortFrames: after a complete message with recognisable content on one connection, the other
+// connection sends frames of the same type whose body is cut short (every length from the fixed
+// part to one byte before the end).  The decoder must not complete them from bytes an earlier
+// message left in a recycled buffer (MsgCache.tla: a message's content is a function of its own
+// frame): each is answered Rlerror and the backend sees nothing of it.
+func shortFrames(w *world, o *out) {
+	secret := "earlier-message-name-0123456789"
+	type tc struct {
+		typ   string
+		vals  wirecodec.Values
+		fixed int
+	}
+	cases := []tc{
+		{"Twalk", wirecodec.Values{"fid": 2, "newfid": 140, "names": []string{secret}}, 10},
+		{"Tlcreate", wirecodec.Values{"fid": 141, "name": "f" + secret, "flags": 1, "mode": 0o644, "gid": 0}, 4},
+		{"Twrite", wirecodec.Values{"fid": 3, "offset": 7, "data": []byte(secret)}, 16},
+		{"Tmkdir", wirecodec.Values{"dfid": 2, "name": "d" + secret, "mode": 0o755, "gid": 0}, 4},
+	}
+	for _, c := range cases {
+		// the complete message, on connection 0
+		if c.typ == "Tlcreate" {
+			w.rpc(0, "Twalk", wirecodec.Values{"fid": 2, "newfid": 141, "names": []string{}})
+		}
+		if f, err := w.rpc(0, c.typ, c.vals); err != nil || f.Name == "Rlerror" {
+			o.Findings = append(o.Findings, fmt.Sprintf("short frames: the complete %s failed (%v)", c.typ, f))
+			return
+		}
+		w.rpc(0, "Tclunk", wirecodec.Values{"fid": 140})
+		w.rpc(0, "Tclunk", wirecodec.Values{"fid": 141})
+		w.take()
+		body := w.t.EncodeBody(c.typ, c.vals)
+		for k := c.fixed; k < len(body); k++ {
+			o.Cases++
+			o.Requests++
+			w.tag++
+			frame := make([]byte, 7, 7+k)
+			frame[0], frame[1], frame[2], frame[3] = byte(7+k), byte((7+k)>>8), 0, 0
+			frame[4] = w.t.Layout[c.typ].ID
+			frame[5], frame[6] = byte(w.tag), byte(w.tag>>8)
+			w.conns[1].SendBytes(append(frame, body[:k]...))
+			b, ok, to := w.conns[1].FR.Next(5 * time.Second)
+			if to || !ok {
+				o.Findings = append(o.Findings, fmt.Sprintf("short frames: %s cut to %d of %d body bytes got no reply", c.typ, k, len(body)))
+				return
+			}
+			f, err := w.t.Decode(b)
+			calls := w.take()
+			var seen []string
+			for _, cl := range calls {
+				seen = append(seen, fmt.Sprintf("%s%q%v", cl.K, cl.Names, cl.Args["name"]))
+			}
+			if err != nil || f.Name != "Rlerror" || len(calls) > 0 {
+				o.Findings = append(o.Findings, fmt.Sprintf("short frames: %s cut to %d of %d body bytes, sent after a complete %s on another connection: answered %v, backend calls %v; the frame does not carry a complete message and must be rejected without reaching the backend (content taken from an earlier message's buffer?)",
+					c.typ, k, len(body), c.typ, f, seen))
+				return
+			}
+		}
+	}
+}
+
 // gatedWriter is the server's reply transport: while closed, Write blocks (a slow client).
 type gatedWriter struct {
 	w    interface{ Write([]byte) (int, error) }
@@ -381,6 +441,9 @@ func main() {
 		if len(o.Findings) > 25 {
 			break
 		}
+	}
+	if *shard == 1%*nshard {
+		shortFrames(w, o)
 	}
 	if *shard == 0 {
 		inflight(t, o, [][]int{{100, 100}, {4096, 10, 4096}, {10, 4096, 10, 0, 7}, {1, 1, 1, 1}, {60000, 60000}, {3, 60000, 3}})
